@@ -26,16 +26,34 @@ type c03Store struct {
 	calls   int
 	faultAt int
 	fired   bool
+	// mat, if set, is the materialised store; for a run of consecutive indexes the reader hands out a
+	// sub-slice of it instead of a copy (legal for a HashReader: a caller must not write into what it
+	// is given). Shared by the stores of one run, so damage done by one call shows in the next.
+	mat []tlog.Hash
 }
 
 func (s *c03Store) ReadHashes(idx []int64) ([]tlog.Hash, error) {
 	s.calls++
+	if s.mat != nil && len(idx) > 0 && !(s.fault != 0 && s.calls-1 == s.faultAt) {
+		consecutive := idx[0] >= 0 && idx[len(idx)-1] < int64(len(s.mat))
+		for i := 1; i < len(idx); i++ {
+			consecutive = consecutive && idx[i] == idx[i-1]+1
+		}
+		if consecutive {
+			a, b := idx[0], idx[len(idx)-1]+1
+			return s.mat[a:b:b], nil
+		}
+	}
 	out := make([]tlog.Hash, len(idx))
 	for i, x := range idx {
 		if x < 0 || x >= ref.StoredCount(s.tree.N()) {
 			return nil, fmt.Errorf("index %d out of range", x)
 		}
-		out[i] = tlog.Hash(s.tree.StoredHash(x))
+		if s.mat != nil {
+			out[i] = s.mat[x]
+		} else {
+			out[i] = tlog.Hash(s.tree.StoredHash(x))
+		}
 	}
 	if s.fault != 0 && s.calls-1 == s.faultAt {
 		s.fired = true
@@ -49,6 +67,14 @@ func (s *c03Store) ReadHashes(idx []int64) ([]tlog.Hash, error) {
 			return out, nil // nothing to shorten: no fault delivered
 		case 3:
 			return append(out, tlog.Hash{}), nil
+		case 4: // an error together with a result of the right length that is only partly filled in
+			if len(out) > 0 {
+				for i := len(out) / 2; i < len(out); i++ {
+					out[i] = tlog.Hash{}
+				}
+				return out, fmt.Errorf("simulated read error after %d of %d hashes", len(out)/2, len(out))
+			}
+			s.fired = false
 		}
 	}
 	return out, nil
@@ -221,7 +247,15 @@ func c03Explore(src *choice.Src) *core.Result {
 	case 2:
 		n = 0
 	}
-	st := &c03Store{tree: tr, fault: src.Weighted(6, 1, 1, 1), faultAt: src.Intn(2)}
+	var mat []tlog.Hash
+	if !virtual && N <= 2048 && src.Bool(1, 3) {
+		mat = make([]tlog.Hash, ref.StoredCount(N))
+		for i := range mat {
+			mat[i] = tlog.Hash(tr.StoredHash(int64(i)))
+		}
+		res.Probes["zero-copy-store"]++
+	}
+	st := &c03Store{tree: tr, fault: src.Weighted(6, 1, 1, 1, 1), faultAt: src.Intn(2), mat: mat}
 	res.Logf("C03 tree %d (virtual=%v): inclusion of %d in %d, store fault %d", N, virtual, n, t, st.fault)
 	var rp tlog.RecordProof
 	var err error
@@ -240,7 +274,7 @@ func c03Explore(src *choice.Src) *core.Result {
 			res.Fail("C03", "prove-is-rfc6962-path", "ProveRecord result is not the RFC 6962 audit path", "ProveRecord(%d, %d) returned %d hashes; the audit path PATH(%d, D[%d]) has %d%s", t, n, len(rp), n, t, len(want), firstDiff(rp, want))
 		}
 		if st.fired {
-			res.Faults[[]string{"", "hashreader-error", "hashreader-short", "hashreader-long"}[st.fault]]++
+			res.Faults[[]string{"", "hashreader-error", "hashreader-short", "hashreader-long", "hashreader-error-with-partial-result"}[st.fault]]++
 		}
 	}
 	leaf := tlog.Hash(tr.Sub(0, n))
@@ -288,7 +322,7 @@ func c03Explore(src *choice.Src) *core.Result {
 			n2 = t2
 		}
 	}
-	st2 := &c03Store{tree: tr, fault: src.Weighted(6, 1, 1, 1), faultAt: 0}
+	st2 := &c03Store{tree: tr, fault: src.Weighted(6, 1, 1, 1, 1), faultAt: 0, mat: mat}
 	res.Logf("consistency of %d in %d, store fault %d", n2, t2, st2.fault)
 	var tp tlog.TreeProof
 	ok = c03Guard(res, "ProveTree", func() { tp, err = tlog.ProveTree(t2, n2, st2) })
@@ -305,7 +339,20 @@ func c03Explore(src *choice.Src) *core.Result {
 			res.Fail("C03", "prove-is-rfc6962-proof", "ProveTree result is not the RFC 6962 consistency proof", "ProveTree(%d, %d) returned %d hashes; PROOF(%d, D[%d]) has %d%s", t2, n2, len(tp), n2, t2, len(want2), firstDiff(tp, want2))
 		}
 		if st2.fired {
-			res.Faults[[]string{"", "hashreader-error", "hashreader-short", "hashreader-long"}[st2.fault]]++
+			res.Faults[[]string{"", "hashreader-error", "hashreader-short", "hashreader-long", "hashreader-error-with-partial-result"}[st2.fault]]++
+		}
+	}
+	// reading must not change the store: a later TreeHash and every stored hash are still the reference's
+	if mat != nil && res.Violation == nil {
+		for i := range mat {
+			if ref.Hash(mat[i]) != tr.StoredHash(int64(i)) {
+				l, o := ref.StoredCoord(int64(i))
+				res.Fail("C03", "store-untouched", "proving wrote into the hashes its HashReader handed out", "tree %d: after ProveRecord(%d, %d) and ProveTree(%d, %d) the store's hash at position %d (level %d offset %d) is no longer the RFC 6962 subtree hash; the reader hands out sub-slices of its own array", N, t, n, t2, n2, i, l, o)
+				break
+			}
+		}
+		if th, err := tlog.TreeHash(N, &c03Store{tree: tr, mat: mat}); res.Violation == nil && (err != nil || ref.Hash(th) != tr.MTH(N)) {
+			res.Fail("C03", "store-untouched", "the tree hash read from the store after proving is not the RFC 6962 tree hash", "tree %d: TreeHash = %v, %v", N, th, err)
 		}
 	}
 	honest2 := c03Tuple{proof: toTlog(want2), t: t2, n: n2, th: tlog.Hash(tr.MTH(t2)), h: tlog.Hash(tr.MTH(n2))}
